@@ -116,9 +116,13 @@ type Recorder struct {
 	mu      sync.Mutex
 	Evs     []Event
 	Started *atomic.Int64
+	Delay   time.Duration // an application handler that takes this long per event (logging, fsync)
 }
 
 func (r *Recorder) OnEvent(p *attachment.PackageProgress) {
+	if r.Delay > 0 {
+		time.Sleep(r.Delay)
+	}
 	e := Event{Stage: p.ProgressStage, HasMsg: p.ExtensionFields.RecentTerminalMessage != nil}
 	if r.Started != nil {
 		e.StartedUpTo = r.Started.Load()
